@@ -83,9 +83,11 @@ def _true_miles(a, b):
     return 2 * 6371.0088 * math.asin(math.sqrt(h)) / 1.609344
 
 
-def build_generated_db(path, airports_csv):
+def build_generated_db(path, airports_csv, flights=None, year=2019):
     """Create the generated database at `path` through the real importer (OAGDatabase.add,
-    commit, index).  Returns (flights attempted, flights accepted)."""
+    commit, index).  Returns the list of (flight row, stated miles) the importer accepted -
+    these raw schedule rows are what `SourceTables` expands independently."""
+    flights = GEN_FLIGHTS if flights is None else flights
     import csv
 
     from AEIC.missions.oag import CSVEntry, OAGDatabase
@@ -94,9 +96,9 @@ def build_generated_db(path, airports_csv):
     with open(airports_csv, newline='', encoding='utf-8') as f:
         for r in csv.DictReader(f):
             pos[r['iata_code']] = (float(r['latitude_deg']), float(r['longitude_deg']))
-    accepted = 0
-    with OAGDatabase(str(path), 2019) as db:
-        for i, fl in enumerate(GEN_FLIGHTS):
+    accepted = []
+    with OAGDatabase(str(path), year) as db:
+        for i, fl in enumerate(flights):
             car, no, dep, arr, dt, at, ad, days, ef, et, svc, ac, seats = fl
             miles = _true_miles(pos[dep], pos[arr])
             # the importer's plausibility rule may reject the true distance for some pairs
@@ -111,12 +113,12 @@ def build_generated_db(path, airports_csv):
                 )  # fmt: skip
                 e = CSVEntry.from_csv_row(row, i + 2)
                 if e is not None and db.add(e, commit=False):
-                    accepted += 1
+                    accepted.append((fl, cand))
                     break
         db.commit()
         db.index()
         db.commit()
-    return len(GEN_FLIGHTS), accepted
+    return accepted
 
 
 # --------------------------------------------------------------------------- raw tables
@@ -181,6 +183,122 @@ class Tables:
                 out.append(f'airport {a["code"]} position differs from its spatial-index entry {rt}')
                 break
         return out
+
+
+# --------------------------------------------------------------------------- source model
+# The expected content of a generated database, computed from the raw schedule rows alone: own
+# calendar expansion (stdlib datetime/zoneinfo), own statute-mile conversion, own airport ->
+# country -> continent table.  Nothing here reads the generated tables except to learn which
+# database ids the importer gave to the rows (identity only).
+
+MILE_KM = 1.609344
+
+# A second data year expanded in the same process (after the 2019 database).
+GEN2_FLIGHTS = [
+    ('BA', 212, 'BOS', 'LHR', '1900', '0630', 1, '1', '20191216', '20200202', 'J', '777', 275),
+    ('BA', 213, 'LHR', 'BOS', '1100', '1330', 0, '135', '20191216', '20200202', 'J', '777', 275),
+    ('UA', 500, 'ORD', 'SFO', '0800', '1030', 0, '67', '20191216', '20200202', 'J', '738', 166),
+    ('NH', 6, 'NRT', 'LAX', '0800', '0100', 0, '24', '20191223', '20200119', 'J', '77W', 250),
+    ('NH', 5, 'LAX', 'NRT', '2200', '0300', 2, '1234567', '20191228', '20200105', 'J', '77W', 250),
+    ('AM', 500, 'MEX', 'CUN', '0600', '0830', 0, '3', '20200101', '20200202', 'J', '738', 160),
+    ('LH', 96, 'FRA', 'MUC', '0615', '0710', 0, '12345', '20200106', '20200117', 'J', '320', 168),
+    ('AC', 400, 'YYZ', 'YUL', '0700', '0815', 0, '7', '20191201', '20200202', 'J', 'E90', 97),
+    ('FX', 5, 'ORD', 'CDG', '0300', '1800', 0, '5', '20191216', '20200202', 'F', '77X', 0),
+]
+
+AIRPORT_TZ = {
+    'BOS': 'America/New_York', 'JFK': 'America/New_York', 'LAX': 'America/Los_Angeles', 'ORD': 'America/Chicago',
+    'DTW': 'America/Detroit', 'MIA': 'America/New_York', 'SFO': 'America/Los_Angeles', 'SEA': 'America/Los_Angeles',
+    'ATL': 'America/New_York', 'YYZ': 'America/Toronto', 'YVR': 'America/Vancouver', 'YUL': 'America/Toronto',
+    'MEX': 'America/Mexico_City', 'CUN': 'America/Cancun', 'LHR': 'Europe/London', 'LGW': 'Europe/London',
+    'MAN': 'Europe/London', 'EDI': 'Europe/London', 'CDG': 'Europe/Paris', 'ORY': 'Europe/Paris', 'NCE': 'Europe/Paris',
+    'FRA': 'Europe/Berlin', 'MUC': 'Europe/Berlin', 'HAM': 'Europe/Berlin', 'FCO': 'Europe/Rome', 'MXP': 'Europe/Rome',
+    'VCE': 'Europe/Rome', 'NRT': 'Asia/Tokyo', 'HND': 'Asia/Tokyo', 'KIX': 'Asia/Tokyo',
+}  # fmt: skip
+COUNTRY_CONTINENT = {'US': 'NA', 'CA': 'NA', 'MX': 'NA', 'GB': 'EU', 'FR': 'EU', 'DE': 'EU', 'IT': 'EU', 'JP': 'AS'}
+
+
+def expand_row(fl):
+    """Own expansion of one schedule row into (departure, arrival) UTC timestamps: every date of
+    the inclusive effective range whose ISO weekday is listed; local wall-clock times at the
+    respective airports; an instance arriving before it departs is not scheduled."""
+    from datetime import datetime, timedelta
+    from zoneinfo import ZoneInfo
+
+    _, _, dep, arr, dt, at, ad, days, ef, et = fl[:10]
+    d0 = date(int(ef[:4]), int(ef[4:6]), int(ef[6:]))
+    d1 = date(int(et[:4]), int(et[4:6]), int(et[6:]))
+    out = []
+    d = d0
+    while d <= d1:
+        if str(d.isoweekday()) in days:
+            t0 = datetime(d.year, d.month, d.day, int(dt[:2]), int(dt[2:]), tzinfo=ZoneInfo(AIRPORT_TZ[dep]))
+            a = d + timedelta(days=ad)
+            t1 = datetime(a.year, a.month, a.day, int(at[:2]), int(at[2:]), tzinfo=ZoneInfo(AIRPORT_TZ[arr]))
+            if t1.timestamp() >= t0.timestamp():
+                out.append((int(t0.timestamp()), int(t1.timestamp())))
+        d += timedelta(days=1)
+    return out
+
+
+class SourceTables:
+    """Same interface as `Tables`, but the content is what the raw schedule rows say the database
+    must hold.  Rows the importer did not store get negative ids (no query can return them);
+    rows the importer stored but the schedule does not contain are absent from `by_id` (a query
+    returning them returns an instance that does not satisfy the conditions)."""
+
+    def __init__(self, path, accepted, airports_csv):
+        import csv
+
+        ap_src = {}
+        with open(airports_csv, newline='', encoding='utf-8') as f:
+            for r in csv.DictReader(f):
+                ap_src[r['iata_code']] = dict(
+                    code=r['iata_code'], country=r['iso_country'], continent=COUNTRY_CONTINENT[r['iso_country']],
+                    lat=float(r['latitude_deg']), lon=float(r['longitude_deg']),
+                )  # fmt: skip
+        c = sqlite3.connect(f'file:{path}?mode=ro', uri=True)
+        try:
+            fid = {(r[1], r[2]): r[0] for r in c.execute('SELECT id, carrier, flight_number FROM flights')}
+            sid = {(r[2], r[1]): r[0] for r in c.execute('SELECT id, departure_timestamp, flight_id FROM schedules')}
+            self.db_instances = len(sid)
+        finally:
+            c.close()
+        self.airports = {}
+        self.flights = {}
+        inst = []
+        fake = 0
+        for fl, miles in accepted:
+            car, no, dep, arr, _, _, _, _, _, _, svc, ac, seats = fl
+            f_id = fid.get((car, str(no)))
+            if f_id is None:
+                fake -= 1
+                f_id = fake
+            km = miles * MILE_KM
+            for code in (dep, arr):
+                self.airports[code] = ap_src[code]
+            self.flights[f_id] = (f_id, car, str(no), dep, arr, svc, ac, '', km, seats)
+            for t0, t1 in expand_row(fl):
+                i = sid.get((f_id, t0))
+                if i is None:
+                    fake -= 1
+                    i = fake
+                inst.append(
+                    dict(
+                        id=i, dep=t0, arr=t1, day=t0 // 86400, flight_id=f_id, carrier=car, flight_number=str(no),
+                        o=ap_src[dep], d=ap_src[arr], service_type=svc, aircraft_type=ac, engine_type='', distance=km,
+                        seat_capacity=seats,
+                    )
+                )  # fmt: skip
+        inst.sort(key=lambda r: (r['dep'], r['id']))
+        self.inst = inst
+        self.by_id = {r['id']: r for r in inst}
+        self.min_day = min(r['dep'] // 86400 for r in inst)
+        self.max_day = max(r['dep'] // 86400 for r in inst)
+        self.not_stored = sum(1 for r in inst if r['id'] < 0)
+
+    def assumptions_violated(self):
+        return []
 
 
 # --------------------------------------------------------------------------- predicate
